@@ -181,6 +181,44 @@ def evaluate(ctx, cases):
                             ctx.violation(f"two lazy iterators over the same document with different filter contexts must each see their own context ({which})",
                                           {**inp, "schedule": sched, "contexts": [e1, e2]}, [ga[:4], gb[:4]], [w1[:4], w2[:4]])
                             break
+        # the document given as JSON text, several times, with the caller editing what came back (and patching / resolving
+        # pointers against the same text) in between: every evaluation sees the text, not what earlier calls made of it
+        if isinstance(docs[0], (dict, list)) and not isinstance(ref[0], dict):
+            import json as _json
+            from jsonpath import JSONPatch, JSONPointer
+            txt = _json.dumps(docs[0])
+            for which, q in (("caching on", qon), ("caching off", qoff)):
+                bad = False
+                for rnd in range(3):
+                    got = core.outcome(lambda: list(q.finditer(txt, filter_context=extra)))
+                    if "err" in got:
+                        break
+                    now = [[m.path, core.canon(m.obj)] for m in got["ok"]]
+                    ctx.count("text-history")
+                    if now != ref[0]:
+                        ctx.violation(f"evaluating the same JSON text again must give the same result whatever was done with earlier results ({which})",
+                                      {**inp, "round": rnd + 1}, now[:4], ref[0][:4])
+                        bad = True
+                        break
+                    # the caller edits the values it was given, the root it can reach, and applies a patch / a pointer to the same text
+                    for m in got["ok"]:
+                        if isinstance(m.obj, list):
+                            m.obj.append("EDITED")
+                        elif isinstance(m.obj, dict):
+                            m.obj["EDITED"] = rnd
+                    root = got["ok"][0].root if got["ok"] else None
+                    if isinstance(root, dict):
+                        root["k"] = 99
+                        root.pop("a", None)
+                    elif isinstance(root, list):
+                        root.insert(0, {"k": 99, "a": 99})
+                    core.outcome(lambda: JSONPatch().add("", {"k": 123, "xs": []}).apply(txt))
+                    core.outcome(lambda: JSONPatch().add("/zzz", 1).apply(txt))
+                    r = core.outcome(lambda: JSONPointer("").resolve(txt))
+                    if "ok" in r and isinstance(r["ok"], dict):
+                        r["ok"]["k"] = 77
+                if bad:
+                    break
         # tasks: one compiled query, several documents / contexts, gathered on one event loop (async getters yield)
         if not isinstance(ref[0], dict) and ctx.rng.random() < (0.3 if ctx.tier == "quick" else 1.0):
             import asyncio
